@@ -106,6 +106,9 @@ ROW_FIELDS = ["idx", "ts", "dur", "pid", "tid", "stream", "corr", "link", "iter"
 def rows_of(t, rank: int) -> List[List[Any]]:
     """Rows of the loaded frame as `[idx, ts, dur, pid, tid, stream, corr, link, iter, name, cat]`
     with decoded strings, in frame order."""
+    snap = getattr(t, "_verif_rows_snapshot", None)
+    if snap is not None and rank in snap:
+        return [list(x) for x in snap[rank]]
     df = t.get_trace(rank)
     tab = t.symbol_table.get_sym_table()
     out = []
